@@ -64,6 +64,17 @@ class RecOp:
         return RecOp(self.arr.conj().itranspose())
 
 
+def _unpipe(m):
+    """Back to the basis of the vector legs (a pipe sorts and bunches the charge blocks)."""
+    from tenpy.linalg.charges import LegPipe
+    return m.split_legs() if any(isinstance(l, LegPipe) for l in m.legs) else m
+
+
+class _PipeAdj(RecOp):
+    def to_matrix(self):
+        return self.arr.combine_legs([[0], [1]], qconj=[+1, -1])
+
+
 def gen_problem(ctx, rng, hermitian=True, max_dim=60, cplx=None):
     from vf import gen
     from tenpy.linalg import np_conserved as npc
@@ -632,37 +643,83 @@ def do_flat(ctx, rng):
 
 
 def do_wrappers(ctx, rng):
-    """Sum / Shift / Orthogonal wrappers: to_matrix agrees with matvec on basis vectors."""
-    from tenpy.linalg.sparse import SumNpcLinearOperator, ShiftNpcLinearOperator, OrthogonalNpcLinearOperator
+    """Sum / Shift / Orthogonal / Boost wrappers: matvec, to_matrix and adjoint all denote the documented dense operator."""
+    from tenpy.linalg.sparse import SumNpcLinearOperator, ShiftNpcLinearOperator, OrthogonalNpcLinearOperator, BoostNpcLinearOperator
     from tenpy.linalg import np_conserved as npc
-    p = gen_problem(ctx, rng, max_dim=12)
+    p = gen_problem(ctx, rng, hermitian=bool(rng.random() < 0.5), max_dim=12)
     if p is None:
         raise _Skip()
-    q = gen_problem(ctx, rng, max_dim=12)
-    kind = str(rng.choice(['shift', 'sum', 'ortho']))
+    kind = str(rng.choice(['shift', 'sum', 'ortho', 'boost']))
     opts = {'wrapper': kind}
     case = describe(p, opts)
     base = RecOp(p['A'])
     d = p['d']
+    n = p['n']
+    cplx = bool(p.get('complex')) or np.iscomplexobj(d)
+
+    def sector_vec():
+        v = np.zeros(n, dtype=complex if cplx else float)
+        v[p['idx']] = rng.standard_normal(len(p['idx'])) + (1j * rng.standard_normal(len(p['idx'])) if cplx else 0)
+        return v
+
     try:
         if kind == 'shift':
-            s = float(rng.standard_normal())
-            W = ShiftNpcLinearOperator(base, s)
-            ref = d + s * np.eye(p['n'])
+            sh = float(rng.standard_normal()) + (1j * float(rng.standard_normal()) if cplx and rng.random() < 0.5 else 0)
+            W = ShiftNpcLinearOperator(base, sh)
+            ref = d + sh * np.eye(n)
         elif kind == 'sum':
-            B = p['A'] * 0.5
-            W = SumNpcLinearOperator(base, RecOp(B))
-            ref = d * 1.5
-        else:
-            v = p['v0'] / np.linalg.norm(p['v0'])
-            ov = npc.Array.from_ndarray(v, [p['leg']], qtotal=list(p['sector']), labels=['x'], cutoff=0.)
-            W = OrthogonalNpcLinearOperator(base, [ov])
-            P = np.eye(p['n']) - np.outer(v, v.conj())
+            f = 0.5 + (0.25j if cplx else 0)
+            W = SumNpcLinearOperator(base, RecOp(p['A'] * f))
+            ref = d * (1 + f)
+        elif kind == 'ortho':
+            vs = [sector_vec() for _ in range(int(rng.integers(1, 3)))]
+            if len(vs) > len(p['idx']) - 1:
+                raise _Skip()
+            ovs = [npc.Array.from_ndarray(v, [p['leg']], qtotal=list(p['sector']), labels=['x'], cutoff=0.) for v in vs]
+            # (to_matrix of the wrapped operator has one *pipe* per side over the legs of the vector, as EffectiveH.to_matrix has)
+            base.to_matrix = lambda: p['A'].combine_legs([[0], [1]], qconj=[+1, -1])
+            base.adjoint = lambda: _PipeAdj(p['A'].conj().itranspose())
+            W = OrthogonalNpcLinearOperator(base, ovs)
+            Q = np.linalg.qr(np.array(vs).T)[0]
+            P = np.eye(n) - Q @ Q.conj().T
             ref = P @ d @ P
-        x = p['psi0']
-        y = W.matvec(x).to_ndarray()
-        if not (np.linalg.norm(y - ref @ p['v0']) <= 1e-9 * max(1.0, np.linalg.norm(ref)) * max(1.0, np.linalg.norm(p['v0']))):
-            ctx.violation('wrapper.%s:matvec' % kind, '', case)
+        else:
+            vs = [sector_vec() for _ in range(int(rng.integers(1, 3)))]
+            vs = [v / np.linalg.norm(v) for v in vs]
+            bs = [float(rng.standard_normal()) + (1j * float(rng.standard_normal()) if cplx and rng.random() < 0.5 else 0) for _ in vs]
+            ovs = [npc.Array.from_ndarray(v, [p['leg']], qtotal=list(p['sector']), labels=['x'], cutoff=0.) for v in vs]
+            base.to_matrix = lambda: p['A'].combine_legs([[0], [1]], qconj=[+1, -1])
+            base.adjoint = lambda: _PipeAdj(p['A'].conj().itranspose())
+            W = BoostNpcLinearOperator(base, bs, ovs)
+            ref = d + sum(b * np.outer(v, v.conj()) for b, v in zip(bs, vs))
+    except _Skip:
+        raise
     except Exception as e:
-        ctx.violation('wrapper.%s:raises-%s' % (kind, type(e).__name__), traceback.format_exc()[-600:], case)
+        ctx.violation('wrapper.%s:init-raises-%s' % (kind, type(e).__name__), traceback.format_exc()[-600:], case)
+        return p, opts, 'wrappers'
+    scale = max(1.0, np.linalg.norm(ref)) * max(1.0, np.linalg.norm(p['v0']))
+    x = p['psi0']
+    for what in ('matvec', 'to_matrix', 'adjoint.matvec', 'adjoint.to_matrix'):
+        ctx.count('wrappers.' + what)
+        try:
+            if what == 'matvec':
+                got, exp = W.matvec(x.copy()).to_ndarray(), ref @ p['v0']
+            elif what == 'to_matrix':
+                # (the matrix is only specified on the charge sector the vectors live in for the projecting wrappers)
+                got, exp = _unpipe(W.to_matrix()).to_ndarray(), ref
+                if kind in ('ortho', 'boost'):
+                    got, exp = got[np.ix_(p['idx'], p['idx'])], exp[np.ix_(p['idx'], p['idx'])]
+            elif what == 'adjoint.matvec':
+                got, exp = W.adjoint().matvec(x.copy()).to_ndarray(), ref.conj().T @ p['v0']
+            else:
+                got, exp = _unpipe(W.adjoint().to_matrix()).to_ndarray(), ref.conj().T
+                if kind in ('ortho', 'boost'):
+                    got, exp = got[np.ix_(p['idx'], p['idx'])], exp[np.ix_(p['idx'], p['idx'])]
+        except Exception as e:
+            ctx.violation('wrapper.%s:%s:raises-%s' % (kind, what, type(e).__name__), traceback.format_exc()[-600:], case)
+            continue
+        if got.shape != exp.shape or not (np.linalg.norm(got - exp) <= 1e-9 * scale):
+            ctx.violation('wrapper.%s:%s:wrong' % (kind, what), '|got - expected| = %r' % (np.linalg.norm(got - exp) if got.shape == exp.shape else 'shape'), case)
+    if not (np.linalg.norm(x.to_ndarray() - p['v0']) <= 1e-13 * max(1.0, np.linalg.norm(p['v0']))):
+        ctx.violation('wrapper.%s:modifies-its-argument' % kind, '', case)
     return p, opts, 'wrappers'
